@@ -27,7 +27,7 @@ from symv.proxies import SReal, boolean, lift, model_env, real
 
 from . import dailyframe as F
 
-EXPLANATION = "C04: fit/predict gate logic of the three model families with stubbed numerics; persistence of disqualifications through to_json/from_json (daily, billing)."
+EXPLANATION = "C04: fit/predict gate logic of the three model families with stubbed numerics; persistence of disqualifications through to_json/from_json (daily, billing; hourly on a hand-written stored model)."
 BOUNDS = {"quick": dict(dq_list_length="0..2", timezones=["US/Pacific", "US/Eastern", "UTC", "America/Denver", "America/Phoenix"], classes=["baseline", "reporting", "foreign"]),
           "thorough": dict(dq_list_length="0..3", timezones=["US/Pacific", "US/Eastern", "UTC", "America/Denver", "America/Phoenix", "Europe/London"], classes=["baseline", "reporting", "foreign"])}
 STUBS = ["_fit/_adaptive_fit: set error['CVRMSE'] / baseline_metrics to fresh symbols and is_fitted=True", "_predict: returns a sentinel frame",
@@ -35,7 +35,7 @@ STUBS = ["_fit/_adaptive_fit: set error['CVRMSE'] / baseline_metrics to fresh sy
          "hourly settings thresholds: attribute proxy over the real settings object"]
 MODELS_USED = []
 ASSUMPTIONS = ["whether _fit succeeds numerically is outside the claim (C-level code; under the installed numpy/sklearn the real daily/hourly fit crashes)",
-               "hourly SerializeModel storage is outside the claim",
+               "hourly storage: checked on one hand-written stored model (hourly/persist: ndq x override x json/dict route), concretely",
                "'raises exactly when' is read as: DisqualifiedModelError <=> fitted and the guards checked before it pass and dq and no override; any other refusal must be an exception, never a frame"]
 EXPECTED_REGIMES = ["fit refused for disqualified data", "fit with override", "poor fit adds a disqualification", "predict refused (DisqualifiedModelError)",
                     "predict with override", "timezone mismatch", "foreign data class", "unfitted model", "metric undefined (None)"]
@@ -50,7 +50,7 @@ def ENCODED():
 
 def cases(tier, seed):
     return ["daily/fit", "daily/predict", "billing/fit", "billing/predict", "hourly/fit", "hourly/predict", "daily/persist", "billing/persist",
-            "daily/persistfit", "billing/persistfit"]
+            "daily/persistfit", "billing/persistfit", "hourly/persist"]
 
 
 FAM = {
@@ -273,7 +273,36 @@ def judge_predict(fam, cfg, r):
     return r["exc"] == "DisqualifiedModelError" and not (cfg["ndq"] > 0 and not cfg["ignore"])
 
 
+def replay_persist_hourly(inp):
+    """stored hourly model (hand-written document, see hourlyref) with ndq disqualifications: load, write, load again;
+    predict on real reporting data must raise DisqualifiedModelError exactly when a disqualification is stored and not overridden"""
+    import logging
+    logging.disable(logging.CRITICAL)
+    from . import hourlyref as H
+    ndq, ignore, route = inp["ndq"], inp["ignore"], inp.get("route", "json")
+    doc = H.document()
+    dq = [dict(qualified_name=f"eemeter.sufficiency_criteria.dq{i}", description="d", data={} if i % 2 == 0 else {"x": 1.0}) for i in range(ndq)]
+    doc["info"]["disqualification"] = dq
+    m1 = hm.HourlyModel.from_dict(doc)
+    m2 = hm.HourlyModel.from_json(m1.to_json()) if route == "json" else hm.HourlyModel.from_dict(m1.to_dict())
+    verdicts = []
+    for m in (m1, m2):
+        try:
+            out = m.predict(H.reporting("2021-06-07", 3), ignore_disqualification=ignore)
+            verdicts.append("return" if len(out) else "empty")
+        except DisqualifiedModelError:
+            verdicts.append("dme")
+        except Exception as ex:
+            verdicts.append(type(ex).__name__)
+    want = "dme" if (ndq > 0 and not ignore) else "return"
+    names = [w.qualified_name for w in m2.disqualification]
+    bad = verdicts != [want, want] or names != [d["qualified_name"] for d in dq]
+    return bad, f"hourly, {ndq} stored disqualification(s), ignore={ignore}, route {route}: loaded {verdicts[0]}, reloaded {verdicts[1]} (expected {want}); restored {names}"
+
+
 def replay_persist(inp):
+    if inp["fam"] == "hourly":
+        return replay_persist_hourly(inp)
     fam, ndq, ignore = inp["fam"], inp["ndq"], inp["ignore"]
     Model = FAM[fam][0]
     # stored records with and without a payload (several sufficiency disqualifications carry data={})
@@ -480,8 +509,9 @@ def run_persist(case, fam):
     """ground: stored disqualifications close the gate after to_json/from_json (daily, billing)"""
     n = 0
     for ndq in (0, 1, 2):
+      for route in (("json", "dict") if fam == "hourly" else ("json",)):
         for ignore in (False, True):
-            inp = dict(fam=fam, ndq=ndq, ignore=ignore)
+            inp = dict(fam=fam, ndq=ndq, ignore=ignore, route=route)
             bad, det = replay_persist(inp)
             if not case.ground(not bad, "gate verdict and disqualification list survive to_json/from_json"):
                 case.violation("gate verdict and disqualification list survive to_json/from_json", "persist", inp, det)
